@@ -22,7 +22,7 @@ def run_part(ctx):
             ctx.corr(hx, ["prims", "--n", "400"], cases_name="prims_cases%d.v" % k)
         ctx.seed -= 4000
     else:
-        ctx.corr(hx, ["prims", "--n", "150"], cases_name="prims_cases.v")
+        ctx.corr(hx, ["prims", "--n", "300"], cases_name="prims_cases.v")
     ctx.assumptions += [
         "c02prims: length-prefix type and validation mode are configuration, not input: an unknown SeriLengthPrefixType panics by design (modelled as Panic, excluded by the guard lpt <> LBad)",
         "c02prims: item deserializers / object callbacks honour their contract (consumed <= len(input), no panic); iteration and cost bounds need every successful item to consume >= 1 byte (otherwise finding D02d-zero-size-items)",
